@@ -39,6 +39,9 @@ extern "C" void h_receive(void)
 		wl += ref_frame(wire + wl, f == 0 ? 2 : 0, f == frames - 1, !client, key, pay + a, len, lf);
 		if (ping && f == 0 && frames > 1) { byte pp[2] = { 'h', 'i' }; wl += ref_frame(wire + wl, 9, true, !client, key, pp, 2, 0); }
 	}
+	// a second, single-frame message follows on the same connection: message boundaries must be kept
+	byte second[3] = { 0x5a, nondet_u8(), 0x5b };
+	if (frames > 1) wl += ref_frame(wire + wl, 2, true, !client, key, second, 3, 0);
 	int fd = vp_sock_new();
 	vp_sock_feed(fd, wire, wl);
 	{
@@ -47,6 +50,11 @@ extern "C" void h_receive(void)
 		ByteArray got = msg;
 		vp_assert(got.length() == n, "received message has the sent length (exactly once, fragments reassembled)");
 		for (int i = 0; i < n && i < got.length(); i++) vp_assert(got[i] == pay[i], "received message is byte-identical");
+		if (frames > 1)
+		{
+			ByteArray got2 = ws.receive();
+			vp_assert(got2.length() == 3 && got2[0] == second[0] && got2[1] == second[1] && got2[2] == second[2], "the message that follows a fragmented one is received separately and intact");
+		}
 		vp_note(got.length());
 	}
 	vp_reach(1);
